@@ -565,4 +565,156 @@ theorem pr_holds_at_returned_volume_real (rt b a p : ℝ) :
   rw [div_sub_div _ _ hv hd, eq_div_iff (mul_ne_zero hv hd)]
   linear_combination key
 
+/-! ## 10. the fixed-volume iteration, the gas rows of the convergence gate, and what they guarantee
+
+`calc_gas_pressures` (fixed volume, Peng–Robinson) damps the molar volume, takes `P` from the equation of state at that
+internal `V_m` and sets `n_i = p_soln_i / P · V / V_m`.  `fixedV_common_ratio` is the structure of EVERY state this can
+produce; `fixedV_fixed_point_eos` is the property's clause at a fixed point; `ideal_gate_identity` and
+`gate_does_not_bound_eos` say what the 0.001 atm pressure test of `residuals` does and does not guarantee (the known
+departure `fixedV-vm-iteration-accepted-early`). -/
+
+theorem total_eq_sum (f : TransFns Rat) (l : List Rat) : letI := ratOps f; total l = l.sum := by
+  show l.foldl (fun acc x => acc + x) 0 = l.sum
+  rw [foldl_sum]; ring
+
+/-- the sum of the fixed-volume mole numbers: `n = (Σ p_soln / P) · V / V_m` -/
+theorem fixedV_moles_total (f : TransFns Rat) (ps : List Rat) (totalP vol vm : Rat) :
+    letI := ratOps f
+    total (fixedVPRMoles ps totalP vol vm) = total ps / totalP * vol / vm := by
+  letI := ratOps f
+  rw [total_eq_sum, total_eq_sum]
+  show (ps.map fun p => p / totalP * vol / vm).sum = _
+  have : (fun p : Rat => p / totalP * vol / vm) = fun p => p * (1 / totalP * vol / vm) := by funext p; ring
+  rw [this, sum_map_mul_right (fun p => p) ps]; simp; ring
+
+/-- structure of every fixed-volume Peng–Robinson state the engine can report (whether or not its V_m iteration has reached
+the fixed point): with `r = Σ p_soln / P`, the internal molar volume is `r` times the reported one `V / n`, and every
+equilibrium partial pressure is `r` times the mole-fraction share of `P` -/
+theorem fixedV_common_ratio (f : TransFns Rat) (ps : List Rat) (totalP vol vm : Rat)
+    (hP : totalP ≠ 0) (hv : vol ≠ 0) (hvm : vm ≠ 0) (hs : (letI := ratOps f; total ps) ≠ 0) :
+    letI := ratOps f
+    let n := total (fixedVPRMoles ps totalP vol vm)
+    let r := total ps / totalP
+    vm = r * (vol / n) ∧
+    ∀ p ∈ ps, p = r * ((p / totalP * vol / vm) / n * totalP) := by
+  letI := ratOps f
+  intro n r
+  have hn : n = total ps / totalP * vol / vm := fixedV_moles_total f ps totalP vol vm
+  have hn0 : n ≠ 0 := by
+    rw [hn]; exact div_ne_zero (mul_ne_zero (div_ne_zero hs hP) hv) hvm
+  constructor
+  · rw [hn]; simp only [r]; field_simp
+  · intro p _
+    rw [hn]; simp only [r]; field_simp
+
+/-- at a fixed point of the V_m iteration (`V_m = V / n`) with `P` the equation-of-state pressure at `V_m`, the reported
+`P, V, T, n` satisfy the equation of state, Σ p_soln = P, and every equilibrium partial pressure is the share `x_i · P` -/
+theorem fixedV_fixed_point_eos (f : TransFns Rat) (rt b a : Rat) (ps : List Rat) (totalP vol vm : Rat)
+    (hP : totalP ≠ 0) (hv : vol ≠ 0) (hvm : vm ≠ 0) (hs : (letI := ratOps f; total ps) ≠ 0) :
+    letI := ratOps f
+    let n := total (fixedVPRMoles ps totalP vol vm)
+    totalP = prP rt b a vm → vm = vol / n →
+    totalP = prP rt b a (vol / n) ∧ total ps = totalP ∧ ∀ p ∈ ps, p = (p / totalP * vol / vm) / n * totalP := by
+  letI := ratOps f
+  intro n hp hfix
+  obtain ⟨h1, h2⟩ := fixedV_common_ratio f ps totalP vol vm hP hv hvm hs
+  have hn : n = total ps / totalP * vol / vm := fixedV_moles_total f ps totalP vol vm
+  have hn0 : n ≠ 0 := by
+    rw [hn]; exact div_ne_zero (mul_ne_zero (div_ne_zero hs hP) hv) hvm
+  have hr : total ps / totalP = 1 := by
+    have h1' : vm = total ps / totalP * (vol / n) := h1
+    have hvn : vol / n ≠ 0 := div_ne_zero hv hn0
+    rw [hfix] at h1'
+    have := mul_right_cancel₀ hvn (show (1 : Rat) * (vol / n) = total ps / totalP * (vol / n) by rw [one_mul]; exact h1')
+    exact this.symm
+  refine ⟨by rw [← hfix]; exact hp, ?_, ?_⟩
+  · field_simp at hr; linarith
+  · intro p hp'
+    have := h2 p hp'
+    rw [hr, one_mul] at this
+    exact this
+
+/-- the damped update: `V' = (w V + U)/(w + 1)` leaves `U − V' = w (V' − V)`: the distance of the new internal molar volume
+from `U = V/n` is `w` times the step just taken -/
+theorem damp_distance (w vOld u : Rat) (hw : w + 1 ≠ 0) :
+    u - (w * vOld + u) / (w + 1) = w * ((w * vOld + u) / (w + 1) - vOld) := by
+  field_simp; ring
+
+/-- what the 0.001 atm pressure test bounds, in the ideal limit (`a = b = 0`, `P = RT/V`): after a damped step from `V`
+(pressure `P`) with weight `w`, `Σ p_soln − P' = w (P' − P) · Σ p_soln / P`.  The gate `|P' − P| ≤ 0.001` therefore bounds
+`|Σ p_soln − P'|` by `w · 0.001 · Σp/P` atm — an ABSOLUTE bound: relative 1e-4 only above ~10 atm, 10 % at 0.01 atm -/
+theorem ideal_gate_identity (rt ps p w : Rat) (hrt : rt ≠ 0) (hps : ps ≠ 0) (hp : p ≠ 0) (hw : w + 1 ≠ 0)
+    (hden : p + w * ps ≠ 0) :
+    let v' := (w * (rt / p) + rt / ps) / (w + 1)
+    ps - rt / v' = w * (rt / v' - p) * ps / p := by
+  intro v'
+  have hv : v' = rt * (p + w * ps) / (p * ps * (w + 1)) := by simp only [v']; field_simp; ring
+  have hv0 : rt * (p + w * ps) ≠ 0 := mul_ne_zero hrt hden
+  have hP' : rt / v' = p * ps * (w + 1) / (p + w * ps) := by
+    rw [hv, div_div_eq_mul_div]
+    rw [div_eq_div_iff hv0 hden]; ring
+  rw [hP']
+  set D := p + w * ps with hD
+  have e1 : ps - p * ps * (w + 1) / D = (ps * D - p * ps * (w + 1)) / D := by
+    rw [eq_div_iff hden, sub_mul, div_mul_cancel₀ _ hden]
+  have e2 : w * (p * ps * (w + 1) / D - p) * ps / p = (w * (ps * (w + 1) - D) * ps) / D := by
+    rw [eq_div_iff hden, div_mul_eq_mul_div, div_eq_iff hp]
+    have : p * ps * (w + 1) / D * D = p * ps * (w + 1) := div_mul_cancel₀ _ hden
+    calc w * (p * ps * (w + 1) / D - p) * ps * D
+        = w * (p * ps * (w + 1) / D * D - p * D) * ps := by ring
+      _ = w * (p * ps * (w + 1) - p * D) * ps := by rw [this]
+      _ = w * (ps * (w + 1) - D) * ps * p := by ring
+  rw [e1, e2, hD]
+  congr 1
+  ring
+
+/-- the pressure test alone does not keep the reported state within 1e-4 of the equation of state: ideal limit, RT = 24,
+Σ p_soln = 0.012 atm, previous internal V_m = 1900: the new V_m = 1950 gives P' = 24/1950, the test passes
+(|P' − P| = 0.00032 ≤ 0.001) and Σ p_soln / P' = 0.975 — the reported V/n differs from the internal V_m by 2.5 % -/
+theorem gate_does_not_bound_eos :
+    letI := ratOps idFns
+    let rt : Rat := 24
+    let ps : Rat := 12 / 1000
+    let pOld := prP rt 0 0 1900
+    let vm := dampVm (1900 : Rat) (rt / ps) 1
+    let pNew := prP rt 0 0 vm
+    vm = 1950 ∧ pressureTestFails pOld pNew pNew = false ∧ ps / pNew = 39 / 40 := by
+  decide +kernel
+
+/-- volume-given mode over the reals, search off: the pressure `calc_PR` uses is the Peng–Robinson pressure at the given
+molar volume whenever that is positive — the equation of state holds by construction -/
+theorem volume_mode_real (rt b a v : ℝ) :
+    letI := realOps
+    0 < prP rt b a v → pOfVm false rt b a v = prP rt b a v := by
+  letI := realOps
+  intro h
+  have l0 : (lit 0 : ℝ) = 0 := by rw [real_lit]; norm_num
+  simp only [pOfVm, Bool.false_and, Bool.false_eq_true, if_false, l0]
+  rw [if_neg (not_le.mpr h)]
+
+/-- with the search on, the pressure is the EOS pressure at the given volume, or at the volume `v1` the three-root search
+stops at, or 1 -/
+theorem pOfVm_cases (f : TransFns Rat) (search : Bool) (rt b a v : Rat) :
+    letI := ratOps f
+    pOfVm search rt b a v = prP rt b a v ∨ pOfVm search rt b a v = 1 ∨
+    ∃ v1, pOfVm search rt b a v = prP rt b a v1 := by
+  letI := ratOps f
+  unfold pOfVm
+  simp only []
+  split
+  · split
+    · split
+      · split
+        · right; left; rfl
+        · right; right; exact ⟨_, rfl⟩
+      · split
+        · right; left; rfl
+        · left; rfl
+    · split
+      · right; left; rfl
+      · left; rfl
+  · split
+    · right; left; rfl
+    · left; rfl
+
 end PhreeqcVerif.C19
